@@ -1361,6 +1361,70 @@ def closing_arc_in_closure(crate, can, cfx, v):
     return found
 
 
+def _id_ordered_item(d, path):
+    """the component `path` of an item of iterator value d is a position / a vertex id in increasing order"""
+    if not isinstance(d, tuple) or not d or d == "CYCLE":
+        return False
+    IT = "core::iter::traits::iterator::Iterator::"
+    while d[0] == "call" and d[3] and d[1] in (IT + "by_ref", "core::iter::traits::collect::IntoIterator::into_iter"):
+        d = d[3][0]
+    if d[0] == "call" and d[1] == IT + "enumerate":
+        return path[:1] == (0,)
+    if d[0] == "agg" and d[1] == "adt" and d[2][1] in ("Range", "RangeInclusive"):
+        return path == ()
+    if d[0] == "call" and d[1].endswith("Vertices::vertices"):
+        return path == ()
+    return False
+
+
+def _target_chosen_by_id(crate, m):
+    """span of a call of the caller's predicate whose argument is a position / id-ordered value, in shortest_path() or one of
+    its closures"""
+    FN = ("core::ops::function::Fn::call", "core::ops::function::FnMut::call_mut", "core::ops::function::FnOnce::call_once")
+    an = crate.an(m)
+    fx = crate.fx(m)
+
+    def comp_path(t, base):
+        path = []
+        while t != base:
+            if t[0] == "mem" and t[3] is None and isinstance(t[1], str) and base == ("arg", 2) and t[1].startswith("A2."):
+                # deref of a reference component of the item: A2.<k>*
+                k_ = t[1][3:].rstrip("*")
+                return tuple(int(x) for x in k_.split(".") if x.isdigit())
+            if t[0] == "field" and isinstance(t[2], str) and t[2].isdigit():
+                path.append(int(t[2]))
+                t = t[1]
+                continue
+            return None
+        return tuple(reversed(path))
+    for e in an.events:
+        if e["k"] == "call" and e["key"] in FN and len(e["args"]) == 2 and e["args"][1][0] == "agg" and len(e["args"][1][3]) == 1:
+            x = e["args"][1][3][0]
+            from .origin import payload_of
+            site, path = payload_of(x)
+            if site is not None:
+                nev = fx.an_call_at(site[1])
+                if nev is not None and nev["key"] == ITER_NEXT and _id_ordered_item(fx.iter_desc(nev), path):
+                    return e["span"]
+    for cp in crate.prog.children.get(m, []):
+        cl = crate.an(cp)
+        for e in cl.events:
+            if not (e["k"] == "call" and e["key"] in FN and len(e["args"]) == 2 and e["args"][1][0] == "agg" and len(e["args"][1][3]) == 1):
+                continue
+            path = comp_path(e["args"][1][3][0], ("arg", 2))
+            if path is None:
+                continue
+            for pev in an.events:
+                if pev["k"] == "call" and len(pev["args"]) == 2 and pev["args"][1][0] == "agg" and pev["args"][1][1] == "closure" \
+                        and pev["args"][1][2] == cp:
+                    d = pev["args"][0]
+                    if d[0] == "addr":
+                        d = fx.iter_desc(pev)
+                    if _id_ordered_item(d, path):
+                        return e["span"]
+    return None
+
+
 def rule_schema_pred(crate, prop, tier):
     """P2/P3 of SCHEMA-PRED for BfsPred and DijkstraPred (+ cycles())"""
     o = Obl("SCHEMA-PRED")
@@ -1380,6 +1444,12 @@ def rule_schema_pred(crate, prop, tier):
         loops = [ev for ev in an.events if ev["k"] == "call" and ev["key"] == ITER_NEXT
                  and self_iterator(crate, an, fx, ev)[0] == nf]
         if len(loops) != 1:
+            byid = _target_chosen_by_id(crate, m)
+            if byid is not None:
+                o.check(False, tr, "P3-target-in-yield-order", "shortest_path() applies the target predicate to vertex ids in increasing "
+                        "order (positions of a scan / a range / vertices()), not to the vertices in the order the traversal yields "
+                        "them: the first match need not be a nearest target", byid)
+                continue
             o.undecide(tr, "P3-loop", "shortest_path() consumes the traversal in a way the rule does not interpret "
                        "(no single loop over self)")
             continue
